@@ -24,8 +24,13 @@ POSITIONS = [
     ("glossary-term-reused", b"[?{P}]: definition\n\nuse [?{P}] and again [?{P}] end\n", "text"),
     ("footnote-reused", b"x[^f] y[^f] z\n\n[^f]: {P}\n", "text"),
     ("abbreviation-expansion", b"[>AB]: {P}\n\nuse [>AB] and again [>AB] end\n", "text"),
+    # CriticMarkup resolved by the writers themselves (library callers set the accept/reject option without editing the text first)
+    ("critic-highlight-accept", b"a {=={P}==} b\n", "text"), ("critic-highlight-reject", b"a {=={P}==} b\n", "text"), ("critic-addition-accept", b"a {++{P}++} b\n", "text"),
+    ("critic-deletion-reject", b"a {--{P}--} b\n", "text"), ("critic-substitution-accept", b"a {~~old~>{P}~~} b\n", "text"), ("critic-substitution-reject", b"a {~~{P}~>new~~} b\n", "text"),
     ("metadata-value", None, "meta"),
 ]
+POS_EXT = {"critic-highlight-accept": E["CRITIC_ACCEPT"], "critic-addition-accept": E["CRITIC_ACCEPT"], "critic-substitution-accept": E["CRITIC_ACCEPT"],
+           "critic-highlight-reject": E["CRITIC_REJECT"], "critic-deletion-reject": E["CRITIC_REJECT"], "critic-substitution-reject": E["CRITIC_REJECT"]}
 SKELETONS = [(b"", b""), (b"qb10 before\n\n", b"\nqb20 after\n"), (b"* qb11 item\n\n# qb10 head\n\n", b"\n> qb20 quote\n\n    qb21 code\n\nqb22 [qb23](u) `qb24`\n")]
 ESC_CMDS = {b"\\textbackslash", b"\\ensuremath", b"\\sim", b"\\slash", b"\\textbar", b"\\textasciitilde"}
 def latex_cmds(t): return sorted(x for x in re.findall(rb"\\[a-zA-Z]+", t) if x not in ESC_CMDS)
@@ -120,7 +125,8 @@ def make_case():
             if c[1:] in (b"[", b"]") and pname == "link-text": return (None, [], dict(skipped=1))
             if kind == "text": c = c[1:]                                                  # what the reader must see
         complete = kind == "meta" or pname == "abbreviation-expansion"        # LaTeX shows an expansion only in the preamble definitions
-        ext = EXT | (E["COMPLETE"] if complete else (E["SNIPPET"] | E["NO_METADATA"]))
+        ext = EXT | POS_EXT.get(pname, 0) | (E["COMPLETE"] if complete else (E["SNIPPET"] | E["NO_METADATA"]))
+        if pname in POS_EXT and (any(x in c for x in (b"{", b"}", b"~", b"+", b"-", b"=", b">", b"<")) or fname == "opml"): return (None, [], dict(skipped=1))    # characters of the marks themselves would change the mark; OPML stores the source
         out = mmd.convert(doc, ext, fmt) if fmt != 5 else mmd.convert_to_data(doc, ext, fmt, 0, None)
         base = mmd.convert(base_doc, ext, fmt) if fmt != 5 else mmd.convert_to_data(base_doc, ext, fmt, 0, None)
         case_d = dict(src=doc.decode("latin-1"), position=pname, char=c.decode("latin-1"), tight=tight, format=fname)
